@@ -1,45 +1,103 @@
 #!/venv/bin/python
-"""Apply a seeded change to /repo, run the checks, undo it.  usage: try_seed.py <dir with patch.diff [demo.py]> [--baseline] [props...]"""
-import subprocess, sys, os, json
-d = sys.argv[1]
+"""Apply a seeded change to /repo, run the checks, undo it.
+usage: try_seed.py <dir with patch.diff [demo.py notes.md]> [--baseline] [--keep ID] [props...]
+--keep ID  copy patch.diff/demo.py/notes.md to /verif/seeded/ID/ and write meta.json there
+           (forces --baseline and all properties)."""
+import subprocess, sys, os, json, shutil, re
+
+d = sys.argv[1].rstrip('/')
 args = sys.argv[2:]
-do_base = '--baseline' in args
+keep = None
+if '--keep' in args:
+    i = args.index('--keep')
+    keep = args[i + 1]
+    del args[i:i + 2]
+do_base = '--baseline' in args or keep is not None
 props = [a for a in args if not a.startswith('--')]
+if keep:
+    props = []
 patch = os.path.join(d, 'patch.diff')
+
+
 def sh(cmd, **kw):
     return subprocess.run(cmd, shell=True, capture_output=True, text=True, **kw)
+
+
 st = sh('git -C /repo status --porcelain --untracked-files=no').stdout.strip()
 if st:
     print('repo not clean:', st); sys.exit(2)
 r = sh('git -C /repo apply --check %s' % patch)
 if r.returncode:
     print('patch does not apply:', r.stderr[:300]); sys.exit(2)
+head = sh('git -C /repo rev-parse --short HEAD').stdout.strip()
 sh('git -C /repo apply %s' % patch)
+meta = {'repo_head': head, 'caught_by': {}, 'silent': []}
 try:
     demo = os.path.join(d, 'demo.py')
     if os.path.exists(demo):
-        r = sh('/venv/bin/python %s /repo' % demo, timeout=600)
-        print('demo on patched /repo: exit', r.returncode, (r.stdout.strip().splitlines() or [''])[-1][:150])
+        r = sh('/venv/bin/python %s /repo' % demo, timeout=900)
+        last = (r.stdout.strip().splitlines() or [''])[-1][:300]
+        print('demo on patched /repo: exit', r.returncode, last[:150])
+        meta['demo_patched'] = {'exit': r.returncode, 'last_line': last}
     if do_base:
         r = sh('/verif/tools/baseline.py', timeout=900)
-        print(r.stdout.strip().splitlines()[0])
+        line = r.stdout.strip().splitlines()[0]
+        print(line)
+        meta['test_suite_with_patch'] = line
     man = json.load(open('/verif/MANIFEST.json'))
     from concurrent.futures import ThreadPoolExecutor
     checks = [c for c in man['checks'] if not props or c['property_id'] in props]
+
     def run(c):
         return c, sh(c['quick_cmd'], cwd='/verif')
     with ThreadPoolExecutor(8) as ex:
         res = list(ex.map(run, checks))
     for c, r in res:
-        viol = [l for l in r.stdout.splitlines() if l.startswith('  SA-') or l.startswith('ANALYSIS-ERROR')]
+        viol = [l.strip() for l in r.stdout.splitlines() if l.startswith('  SA-') or l.startswith('ANALYSIS-ERROR')]
         flag = 'CAUGHT' if r.returncode == 1 else ('ERROR' if r.returncode == 2 else 'silent')
         if flag != 'silent':
             print(flag, c['property_id'])
             for v in viol[:4]:
                 print('    ', v[:260])
-    print('silent:', ' '.join(c['property_id'] for c, r in res if r.returncode == 0))
+            meta['caught_by'][c['property_id']] = {'exit': r.returncode, 'reports': [v[:400] for v in viol[:6]]}
+        else:
+            meta['silent'].append(c['property_id'])
+    print('silent:', ' '.join(meta['silent']))
 finally:
     sh('git -C /repo checkout -- .')
 if os.path.exists(os.path.join(d, 'demo.py')):
-    r = sh('/venv/bin/python %s /repo' % os.path.join(d, 'demo.py'), timeout=600)
-    print('demo on clean /repo: exit', r.returncode, (r.stdout.strip().splitlines() or [''])[-1][:100])
+    r = sh('/venv/bin/python %s /repo' % os.path.join(d, 'demo.py'), timeout=900)
+    last = (r.stdout.strip().splitlines() or [''])[-1][:100]
+    print('demo on clean /repo: exit', r.returncode, last)
+    meta['demo_clean'] = {'exit': r.returncode, 'last_line': last}
+if keep:
+    dst = '/verif/seeded/%s' % keep
+    os.makedirs(dst, exist_ok=True)
+    for f in ('patch.diff', 'demo.py', 'notes.md'):
+        if os.path.exists(os.path.join(d, f)):
+            shutil.copy(os.path.join(d, f), os.path.join(dst, f))
+    prop = re.match(r'C\d\d', keep).group(0)
+    notes = open(os.path.join(d, 'notes.md')).read() if os.path.exists(os.path.join(d, 'notes.md')) else ''
+    old = {}
+    if os.path.exists(os.path.join(dst, 'meta.json')):
+        old = json.load(open(os.path.join(dst, 'meta.json')))
+    out = {
+        'id': keep,
+        'property': prop,
+        'origin': 'sub-agent given only the property text and a scratch worktree (nothing from /verif)',
+        'changed': sorted(set(re.findall(r'^\+\+\+ b/(\S+)', open(patch).read(), re.M))),
+        'needs_to_manifest': old.get('needs_to_manifest', ''),
+        'what_was_run': [
+            'git -C /repo apply patch.diff; tools/baseline.py (the 1393 pinned tests) -> %s' % meta.get('test_suite_with_patch'),
+            'demo.py /repo with the patch -> exit %s (%s)' % (meta.get('demo_patched', {}).get('exit'), meta.get('demo_patched', {}).get('last_line', '')[:160]),
+            'all quick checks of MANIFEST.json with the patch applied (results below)',
+            'git -C /repo checkout -- . ; demo.py /repo -> exit %s (%s)' % (meta.get('demo_clean', {}).get('exit'), meta.get('demo_clean', {}).get('last_line', '')),
+        ],
+        'repo_head': head,
+        'caught_by': meta['caught_by'],
+        'silent': meta['silent'],
+        'history': old.get('history', []),
+        'agent_notes_file': 'notes.md' if notes else None,
+    }
+    json.dump(out, open(os.path.join(dst, 'meta.json'), 'w'), indent=1)
+    print('kept in', dst)
